@@ -265,6 +265,7 @@ func worker(args []string) {
 				}
 				min, st := sim.Shrink(t.Trace, v.Signature, ex, budget)
 				t3 := sim.NewReplayT(min)
+				t3.Confirm = false
 				v3 := runGuarded(eng, t3, *tier)
 				if v3 != nil && v3.Signature == v.Signature {
 					rec.Choices = t3.Trace
